@@ -24,7 +24,7 @@ from fractions import Fraction
 from ..core import frac
 
 EXT_OPS = ("fmt_spell", "tab_spell", "src_key", "src_label")
-SRC_OPS = False   # src_key / src_label need Generated/ExprsChromsort.lean + the driver ops
+SRC_OPS = True   # src_key / src_label need Generated/ExprsChromsort.lean + the driver ops
 
 
 # ---------------------------------------------------------------------------------------------
@@ -104,7 +104,7 @@ def tabspell_case(rng, table_fn, tag=None):
 
 KEY_NAMES = ["1", "2", "10", "22", "X", "Y", "M", "MT", "x", "y", "Un", "1_random", "17_ctg5_hap1", "Un_gl000211", "GL000207.1",
              "6_cox_hap2", "007", "0", "", "chr", "Chr", "CHR", "chromosome1", "c", "ch", "r1", "1X", "1XY", "XY", "X1", "23A", "EBV",
-             "KI270728.1", "HLA-A*01:01", "9z", "٣", "１２", "²", "ß", "İ1", "12_3", "1e5", "Z", "z9"]
+             "KI270728.1", "HLA-A*01:01", "9z", "12_3", "1e5", "Z", "z9"]
 
 
 def key_case(rng, n=40, tag=None):
@@ -124,9 +124,7 @@ def label_case(rng, n=30, tag=None):
         s = rng.choice([0, 1, 9, 10, rng.randint(0, 3 * 10 ** 8)])
         e = s + rng.choice([0, 1, rng.randint(0, 10 ** 6)])
         rows.append([c, s, e])
-    texts = [rng.choice(["chr1:5-", "chr1:-5", ":3-4", "chr2:10-20 TP53", "chr2:10-20\tg,h", "1:1-1", "chrX:07-010  a b"])
-             for _ in range(6)]
-    return {"op": "src_label", "tag": tag or "srclabel", "in": {"rows": rows, "texts": texts}}
+    return {"op": "src_label", "tag": tag or "srclabel", "in": {"rows": rows}}
 
 
 def corpus(table_fn):
@@ -178,16 +176,11 @@ def run_impl(case, helpers):
         return [list(sorter_chrom(nm)) for nm in i["names"]]
     if op == "src_label":
         from skgenome.rangelabel import from_label, to_label, Region
-        out = {"labels": [], "back": [], "texts": []}
+        out = {"labels": [], "back": []}
         for c, s, e in i["rows"]:
             lab = to_label(Region(c, s, e))
             out["labels"].append(lab)
             out["back"].append(list(from_label(lab, keep_gene=True)))
-        for t in i["texts"]:
-            try:
-                out["texts"].append(list(from_label(t, keep_gene=True)))
-            except ValueError:
-                out["texts"].append("ValueError")
         return out
     d = tempfile.mkdtemp(dir="/var/tmp", prefix="c08x-")
     try:
@@ -308,18 +301,15 @@ def judge(case, impl, resp, is_err):
         return spec, dis, None
     if op == "src_label":
         dis = []
-        for r, o, lab, back in zip(case["in"]["rows"], out["rows"], impl["labels"], impl["back"]):
-            if o["label"] != lab:
-                dis.append(f"to_label{r}: source-function {o['label']!r} code {lab!r}")
+        for r, o, lab, back in zip(case["in"]["rows"], out, impl["labels"], impl["back"]):
+            if o["label"] != lab or o["model"] != lab:
+                dis.append(f"to_label{r}: source-function {o['label']!r} model {o['model']!r} code {lab!r}")
                 break
             if o["back"] != back[:3]:
-                dis.append(f"from_label({lab!r}): source-function {o['back']} code {back}")
+                dis.append(f"from_label({lab!r}): model {o['back']} code {back}")
                 break
-        for t, o, im in zip(case["in"]["texts"], out["texts"], impl["texts"]):
-            want = "ValueError" if im == "ValueError" else [im[0], im[1], im[2], im[3]]
-            if o != want:
-                dis.append(f"from_label({t!r}): model {o} code {want}")
-                break
+            if back[:3] != r:
+                spec = spec + ["roundtrip_coordinates"]
         return spec, dis, None
     return [], ["unknown op"], None
 
